@@ -25,16 +25,80 @@ def load_contracts():
     return json.load(open(p))
 
 
+OLD_FINGERPRINTS = False      # migration switch (tools only)
+
+
 def fingerprint(F, body, site):
     """line-number free description of a site: kind + structural expressions of the asserted operands"""
     from . import dataflow as _df
     prev = _df.NORM_UNSIGNED; _df.NORM_UNSIGNED = True
-    try: return _fingerprint(F, body, site)
+    try: return _fingerprint(F, body, site, canon=not OLD_FINGERPRINTS)
     finally: _df.NORM_UNSIGNED = prev
 
 
-def _fingerprint(F, body, site):
+_FP_IDENTITY = ('::copied', '::cloned', '::clone', '::deref', '::deref_mut', '::as_ref', '::as_mut', '::borrow', 'Into<U>>::into', 'From<', '::as_slice', '::as_mut_slice')
+_FP_COMM = ('Eq', 'Ne', 'BitOr', 'BitAnd', 'BitXor', 'min', 'max')
+
+
+def canon_str(e, names=None):
+    """spelling-independent rendering of an operand expression for site fingerprints: sums and products in a sorted polynomial normal form
+    (a - 4b + 4c - d == a - d + 4(c - b)), commutative operators with sorted operands, value-preserving wrappers (copied / clone / deref / into) dropped"""
+    def poly(x):
+        # {monomial (sorted tuple of atom strings): coefficient}
+        if not isinstance(x, tuple) or not x: return {(str(x),): 1}
+        k = x[0]
+        if k == 'c' and isinstance(x[1], int) and not isinstance(x[1], bool): return {(): x[1]} if x[1] else {}
+        if k == 'op' and x[1] in ('Add', 'AddWithOverflow', 'AddUnchecked', 'Sub', 'SubWithOverflow', 'SubUnchecked'):
+            a, b = poly(x[2]), poly(x[3]); sg = 1 if x[1].startswith('Add') else -1
+            r = dict(a)
+            for m, c in b.items():
+                r[m] = r.get(m, 0) + sg * c
+                if r[m] == 0: del r[m]
+            return r
+        if k == 'op' and x[1] in ('Mul', 'MulWithOverflow', 'MulUnchecked'):
+            a, b = poly(x[2]), poly(x[3])
+            if len(a) * len(b) > 64: return {(atom(x),): 1}
+            r = {}
+            for m1, c1 in a.items():
+                for m2, c2 in b.items():
+                    m = tuple(sorted(m1 + m2)); r[m] = r.get(m, 0) + c1 * c2
+                    if r[m] == 0: del r[m]
+            return r
+        return {(atom(x),): 1}
+    def atom(x):
+        if not isinstance(x, tuple) or not x: return str(x)
+        k = x[0]
+        if k == 'call' and len(x) == 3 and any(i in x[1] for i in _FP_IDENTITY): return render(x[2])
+        if k == 'op' and x[1] in _FP_COMM: return '%s(%s)' % (x[1], ', '.join(sorted(render(y) for y in x[2:])))
+        if k == 'op': return '%s(%s, %s)' % (x[1], render(x[2]), render(x[3]))
+        if k == 'call':
+            nm = x[1].split('::')[-1] if '>::' not in x[1] else x[1].split('>::')[-1]
+            args = [render(y) for y in x[2:]]
+            if nm in _FP_COMM: args = sorted(args)
+            return '%s(%s)' % (nm, ', '.join(args))
+        if k == 'cast': return '(%s as %s)' % (render(x[2]), x[1])
+        if k == 'un': return '%s(%s)' % (x[1], render(x[2]))
+        if k == 'fld': return '%s%s' % (render(x[1]), ''.join('.%s' % (_fs(y),) for y in x[2]))
+        if k == 'len': return 'len(%s)' % render(x[1])
+        if k == 'agg': return '%s(%s)' % (x[1], ', '.join(render(y) for y in x[2:]))
+        return expr_str(x, names)
+    def render(x):
+        if isinstance(x, tuple) and x and x[0] == 'op' and x[1].replace('WithOverflow', '').replace('Unchecked', '') in ('Add', 'Sub', 'Mul'):
+            pl = poly(x)
+            if not pl: return '0'
+            parts = []
+            for m, c in sorted(pl.items()):
+                parts.append(str(c) if not m else ('*'.join(m) if c == 1 else '%d*%s' % (c, '*'.join(m))))
+            return '(' + ' + '.join(parts) + ')'
+        if isinstance(x, tuple) and x and x[0] == 'c': return str(x[1])
+        return atom(x)
+    from .dataflow import _fs
+    return render(e)
+
+
+def _fingerprint(F, body, site, canon=True):
     import hashlib
+    expr_str_ = (lambda e_, n_: canon_str(e_, n_)) if canon else expr_str
     t = body['blocks'][site.bb]['term']
     names = body.get('debug', {})
     if site.kind.startswith('cast:'):
@@ -42,12 +106,12 @@ def _fingerprint(F, body, site):
         for s_ in body['blocks'][site.bb]['stmts']:
             if s_['s'] == 'assign' and s_['rv']['r'] == 'cast' and s_.get('span') == site.span and \
                     site.kind == 'cast:%s->%s' % (s_['rv']['a'].get('p', {}).get('ty'), s_['rv']['to']['s']):
-                fp = '%s(%s)' % (site.kind, expr_str(expr_of(F, body, s_['rv']['a']), names)); break
+                fp = '%s(%s)' % (site.kind, expr_str_(expr_of(F, body, s_['rv']['a']), names)); break
     elif t['t'] == 'assert':
-        ops = [expr_str(expr_of(F, body, o), names) for o in t['ops']]
+        ops = [expr_str_(expr_of(F, body, o), names) for o in t['ops']]
         fp = '%s(%s)' % (t['kind'], ' ; '.join(ops))
     elif t['t'] == 'call':
-        ops = [expr_str(expr_of(F, body, a), names) for a in t['args'][:3]]
+        ops = [expr_str_(expr_of(F, body, a), names) for a in t['args'][:3]]
         fp = '%s(%s)' % (site.kind.split(':', 1)[1] if ':' in site.kind else site.kind, ' ; '.join(ops))
     else:
         fp = site.kind
